@@ -21,6 +21,9 @@ REWRITES = {
     'drop_trace': None,  # handled specially: whole `trace!( ... );` statement removed
     'f64_nan': (r'\bf64::NAN\b', 'crate::verif_rt::f64_nan()'),
     'f64_max': (r'\bf64::MAX\b', 'crate::verif_rt::f64_max()'),
+    # `opt.unwrap_or_else(|| v.len())` -> `opt.unwrap_or(v.len())`: closure results are opaque to Verus; the argument is a
+    # pure length read (no side effect, cannot fail), so eager evaluation is equivalent
+    'unwrap_or_else_len': (r'\.unwrap_or_else\(\|\|\s*([A-Za-z_][A-Za-z_0-9]*)\.len\(\)\)', r'.unwrap_or(\1.len())'),
 }
 
 # run-time helpers emitted once into lib.rs (outside verus!, ordinary Rust, #[inline(always)])
@@ -341,7 +344,7 @@ def process_fn(src, unit, key, spec, s, hp, ob, cb, add_edit, canary, disabled_r
             add_edit(p + len(anchor), p + len(anchor), ' ' + ins['text'], prio=3)
 
     # executable rewrites inside the body only
-    rw = [r for r in unit.get('rewrites', ['drop_trace', 'f64_nan', 'f64_max']) if r not in disabled_rewrites]
+    rw = [r for r in unit.get('rewrites', ['drop_trace', 'f64_nan', 'f64_max', 'unwrap_or_else_len']) if r not in disabled_rewrites]
     new_body = body
     if 'drop_trace' in rw:
         for mt in src.find_code(r'\btrace!\s*\(', ob, cb):
@@ -358,11 +361,11 @@ def process_fn(src, unit, key, spec, s, hp, ob, cb, add_edit, canary, disabled_r
             add_edit(mt.start(), stmt_end, '/*trace dropped*/')
             info.rewrites_applied.append('drop_trace: ' + ' '.join(dropped.split()))
             new_body = new_body.replace(dropped, '')
-    for name in ('f64_nan', 'f64_max'):
+    for name in ('f64_nan', 'f64_max', 'unwrap_or_else_len'):
         if name in rw:
             rx, rep = REWRITES[name]
             for mt in src.find_code(rx, ob, cb):
-                add_edit(mt.start(), mt.end(), rep)
+                add_edit(mt.start(), mt.end(), mt.expand(rep))
                 info.rewrites_applied.append('%s at +%d' % (name, mt.start() - ob))
             new_body = re.sub(rx, rep, new_body)
     for (rx, rep) in spec.get('rewrites', []):
